@@ -465,7 +465,7 @@ def evaluate(ctx, cases, label, n_u=3, exhaustive_max=10, exhaustive_cap=None, m
 
 
 RULE = ("lattice families of DESIGN 1.5 (C01's input space) restricted to lattices without self-loops and with >= 1 plaquette, deduplicated by array hash; "
-        "per lattice: 3 random u (int / int8 alternating) + all-ones, every gauge move and bond flip on the first u (sampled to 40 vertices / 40 edges on large lattices in the quick tier), "
+        "per lattice: 3 random u (int / int8 alternating) + all-ones, every gauge move and bond flip on the first u (sampled to 40 vertices / 40 edges on larger lattices in the quick tier, 200 / 200 in the thorough tier), "
         "and every u in {-1,+1}^E with every gauge move and bond flip for E <= 10 (quick) / 14 (thorough); every counted lattice is non-trivial (has plaquettes)")
 
 
@@ -494,7 +494,39 @@ def run(ctx):
     if ctx.tier == "quick":
         evaluate(ctx, cases, "K", n_u=3, exhaustive_max=10, max_moves=40)
     else:
-        evaluate(ctx, cases, "K", n_u=3, exhaustive_max=14, exhaustive_cap=120, max_moves=10 ** 9)
+        evaluate(ctx, cases, "K", n_u=3, exhaustive_max=14, exhaustive_cap=120, max_moves=200)
+    stream_phase(ctx, 60 if ctx.tier == "quick" else 400)
+
+
+def stream_phase(ctx, n):
+    """Generate-and-drop stream: many short-lived lattices of the SAME size, one flux evaluation each, the lattice
+    released (and collected) before the next one is built.  The flux of a lattice must not depend on which lattices
+    were evaluated earlier in the process (e.g. through a cache keyed on object identity or on sizes)."""
+    import gc
+    from koala import voronization
+    from koala.flux_finder import fluxes_from_ujk
+    res = ctx.res
+    rng = np.random.default_rng([ctx.seed, 505])
+    for i in range(n):
+        npts = 12 if i % 2 == 0 else 16
+        lat = voronization.generate_lattice(rng.uniform(size=(npts, 2)))
+        u = (1 - 2 * rng.integers(0, 2, size=lat.n_edges)).astype(int)
+        want, _ = formula(lat, u)
+        for cplx in (False, True):
+            try:
+                got = fluxes_from_ujk(lat, u, real=not cplx)
+            except Exception as e:
+                res.count("stream/same-size-short-lived", ("stream", i, cplx))
+                res.violation("stream:raises", f"fluxes_from_ujk raised {type(e).__name__}: {e} on the {i}-th short-lived lattice of a stream "
+                              f"(a fresh evaluation of the same lattice alone works): result depends on earlier calls", {"stream_index": i, "n_points": npts, "seed": ctx.seed})
+                continue
+            exp = np.array(want) * (1 if not cplx else np.array([1j ** len(p.edges) for p in lat.plaquettes]))
+            res.count("stream/same-size-short-lived", ("stream", i, cplx))
+            if len(got) != len(exp) or not np.allclose(np.asarray(got), exp):
+                res.violation("stream:flux-depends-on-history", f"flux of the {i}-th short-lived lattice of a generate-and-drop stream differs from the "
+                              f"boundary product computed from its own plaquettes (complex={cplx})", {"stream_index": i, "n_points": npts, "seed": ctx.seed})
+        del lat
+        gc.collect()
 
 
 def search(ctx):
